@@ -990,9 +990,25 @@ def rule_tabidx(ctx):
             ctx.ob("tabidx", ctor, ctor.node, "self.%s" % a, "table row selected in the constructor", None, "not assigned")
 
 
+_INT_CASTS = ("int", "uint8", "uint16", "uint32", "uint64", "int8", "int16", "int32", "int64")
+
+
+def _uncast_int(e):
+    # int(...) / np.uint64(...) around an integer-valued operand change its type, not its value (p and 7 fit every one of these types)
+    while isinstance(e, ast.Call) and len(e.args) == 1 and not e.keywords and (dotted(e.func) or "").split(".")[-1] in _INT_CASTS \
+            and (dotted(e.func) or "").split(".")[0] in ("np", "numpy") + _INT_CASTS:
+        e = e.args[0]
+    return e
+
+
 def _idx_p_minus(node, c):
     t = nf(node)
-    return t == ("Sub", ("call", "int", (("n", "self.p"),)), ("c", float(c))) or t == ("Sub", ("n", "self.p"), ("c", float(c)))
+    if t == ("Sub", ("call", "int", (("n", "self.p"),)), ("c", float(c))) or t == ("Sub", ("n", "self.p"), ("c", float(c))):
+        return True
+    if isinstance(node, ast.BinOp) and isinstance(node.op, ast.Sub):
+        l, r = _uncast_int(node.left), _uncast_int(node.right)
+        return dotted(l) == "self.p" and isinstance(r, ast.Constant) and isinstance(r.value, int) and not isinstance(r.value, bool) and r.value == c
+    return False
 
 
 def load_tables(ctx):
